@@ -67,16 +67,18 @@ def coq_correspondence(ctx, results, name="corr"):
                 broken.append((k, detail[-600:]))
             elif b:
                 bad.append(k)
-    # canary: the comparison must be able to fail (a perturbed observation is rejected)
-    defs, item = items[0]
+    # canary: the comparison must be able to fail (a perturbed cached vector of the start tree is rejected)
     import re
 
-    m = re.search(r"\[\((\d+) # (\d+)\)%Q", item)
     canary_ok = False
-    if m:
-        pert = item[: m.start()] + "[(%d # %d)%%Q" % (int(m.group(1)) * 3 + 1, int(m.group(2))) + item[m.end():]
+    for defs, item in items:
+        m = re.search(r"chk_tree t0 \(mkObs \[\(\d+, (?:None|\(Some \d+\)), \[[\d; ]*\], \[\((\d+) # (\d+)\)%Q", item)
+        if not m:
+            continue  # start tree without clones
+        pert = item[: m.start(1)] + str(int(m.group(1)) * 3 + 1) + item[m.end(1):]
         ok, b, _ = coq.coq_eval_bool_cases(ctx, name + "_canary", HEADER + defs, [pert], shard=1, workers=1)
         canary_ok = ok and b == [0]
+        break
     ctx.extra["coq_corr_histories"] = len(items)
     ctx.obligation("corr_canary_perturbed_observation_rejected", canary_ok)
     if broken:
